@@ -537,6 +537,7 @@ def lemmas(tier):
           Lemma("roundtrip-len6", lemma_roundtrip(6), "every accepted string of length <= 6 over {a,-,/,:,\\n}, enumerated by z3 with blocking clauses", tiers=("quick",)),
           Lemma("injective-output-dirs-k1", lemma_injective(1), "identifiers with <=1 path segment, version present/absent; cvc5 word equations, unbounded component lengths", tiers=("quick",))]
     if tier == "thorough":
+        ls.append(Lemma("roundtrip-len8", lemma_roundtrip(8), "every accepted string of length <= 8 over {a,-,/,:,\\n}", tiers=("thorough",)))
         ls.append(Lemma("roundtrip-len7", lemma_roundtrip(7), "every accepted string of length <= 7 over {a,-,/,:,\\n}", tiers=("thorough",)))
         ls.append(Lemma("injective-output-dirs-k3", lemma_injective(3), "identifiers with <=3 path segments, version present/absent", tiers=("thorough",)))
     return ls
